@@ -265,6 +265,7 @@ fn main() {
             let reqmsg = Message::from_octets(Bytes::from(req.message().as_slice().to_vec())).unwrap();
             let sizes: Vec<usize> = msgs.iter().map(|m| m.as_slice().len()).collect();
             let abs: Vec<Value> = msgs.iter().map(abstract_msg).collect();
+            let sender_msgs = msgs.clone();
             let r = std::panic::catch_unwind(std::panic::AssertUnwindSafe(|| {
                 rt.block_on(receive(&zone2, &reqmsg, msgs, MAX_N))
             }));
@@ -277,6 +278,33 @@ fn main() {
                             "rold": {"soa": rs, "recs": rrecs},
                             "rsteps": rsteps, "rfinal": rfinal, "rpanic": rpanic,
                             "sender": walk_content(&zone, MAX_N)}));
+            // The same stream with its closing SOA corrupted: same serial,
+            // MINIMUM 61 instead of 60 (the last octet of the last message;
+            // there is no additional section).  It must never be taken for
+            // the end of the transfer.
+            let last = sender_msgs.last().unwrap();
+            let closing_is_soa = abs.last().and_then(|m| m["an"].as_array().and_then(|a| a.last().cloned()))
+                .and_then(|v| v.as_i64()).map(is_soa_id).unwrap_or(false);
+            let nrecs: usize = abs.iter().map(|m| m["an"].as_array().map(|a| a.len()).unwrap_or(0)).sum();
+            if closing_is_soa && nrecs >= 2 && last.header_counts().arcount() == 0 {
+                let mut bad = sender_msgs.clone();
+                let mut octets = last.as_slice().to_vec();
+                let n = octets.len();
+                octets[n - 1] ^= 1;
+                *bad.last_mut().unwrap() = Message::from_octets(Bytes::from(octets)).unwrap();
+                let abs_bad: Vec<Value> = bad.iter().map(abstract_msg).collect();
+                let zone3 = build_zone(rs, &rrecs);
+                let r = std::panic::catch_unwind(std::panic::AssertUnwindSafe(|| {
+                    rt.block_on(receive(&zone3, &reqmsg, bad, MAX_N))
+                }));
+                let (rsteps, rfinal, rpanic) = match r {
+                    Ok((steps, fin, _)) => (Value::Array(steps), fin, false),
+                    Err(_) => (json!([]), walk_content(&zone3, MAX_N), true),
+                };
+                tw.event(json!({"ev": "xfer_bad", "req": qtype.to_int(), "from": from,
+                                "msgs": abs_bad, "rold": {"soa": rs, "recs": rrecs},
+                                "rsteps": rsteps, "rfinal": rfinal, "rpanic": rpanic}));
+            }
         }
     }
     let n = tw.finish();
